@@ -2593,6 +2593,25 @@ class Walker:
         return outs
 
     def _comprehension(self, e, kind, st):
+        if len(e.generators) > 1 and not any(g.is_async for g in e.generators) and kind in ("list", "set", "gen"):
+            # [elt for a in A for b in B(a)]: walked as the nested comprehension
+            # [[elt for b in B(a)] for a in A] (same evaluations, same exceptions); the flattened
+            # result is a collection of which nothing but its kind is known
+            inner = ast.ListComp(elt=e.elt, generators=list(e.generators[1:]))
+            outer = ast.ListComp(elt=inner, generators=[e.generators[0]])
+            for x in (inner, outer):
+                ast.copy_location(x, e)
+            inner.col_offset = e.col_offset + 1
+            outs = []
+            for s, k, p in self.expr(outer, st):
+                if k != "val":
+                    outs.append((s, k, p))
+                    continue
+                fl = Fresh("flattened_comprehension")
+                s = s.copy()
+                s.add(("type", fl, frozenset([{"list": "list", "set": "set", "gen": "generator"}[kind]])))
+                outs.append((s, "val", fl))
+            return outs
         if len(e.generators) != 1 or e.generators[0].is_async:
             self.unsupported(e, "comprehension with several generators")
         g = e.generators[0]
